@@ -237,7 +237,7 @@ def formula_gate(run):
     axioms_ok = all(set(a.strip() for a in m.split(',') if a.strip()) <= common.STD_AXIOMS
                     for m in re.findall(r"depends on axioms: \[([^\]]*)\]", out, flags=re.S))
     cov['translator_formulas'] = dict(status='checked' if ok and axioms_ok else 'mismatch', formulas=sorted(fs),
-                                      obligation='Gen.<rule>Rew = C06.rewMulDivProg / rewMuldivDownProg, Gen.<rule>KfUpdate = C06.kfUpdateProg by rfl; '
+                                      obligation='Gen.<rule>Rew = C06.rewMulDivProg / rewMuldivDownProg, Gen.<rule>KfUpdate = C06.kfUpdateProg, Gen.kw* = C06.kw*Prog, Gen.qpqQuotient / qpqNewWeight = QPQ.quotientProg / newWeightProg by rfl; '
                                                  'rewMulDiv_is_program, rewMuldivDown_is_program, *_uses_program (lean/Props/C06Prog.lean) tie them to the model')
     if ok and axioms_ok:
         return []
@@ -483,7 +483,7 @@ def C01(run):
 
 @prop('C02')
 def C02(run):
-    count_property(run, dict(rules=ALL, keys=['C02'], proj=proj_C02, quick=5000, thorough=150000,
+    count_property(run, dict(rules=ALL, keys=['C02'], proj=proj_C02, quick=5000, thorough=150000, extra_gate=formula_gate,
                              families=['plain', 'chains', 'big', 'on_quota', 'few_supported']))
 
 
@@ -497,7 +497,7 @@ def C03(run):
 
 @prop('C04')
 def C04(run):
-    count_property(run, dict(rules=ALL, keys=['C04q', 'C04c', 'EXC'], proj=proj_C04, quick=5000, thorough=150000, extra_gate=quota_gate,
+    count_property(run, dict(rules=ALL, keys=['C04q', 'C04c', 'EXC'], proj=proj_C04, quick=5000, thorough=150000, extra_gate=lambda run: quota_gate(run) + formula_gate(run),
                              families=['plain', 'on_quota', 'symmetric', 'chains', 'sure_losers', 'few_supported', 'exact_threshold',
                                        'exact_threshold']))
 
